@@ -31,6 +31,10 @@ type childArgs struct {
 	cfg     int
 	steps   int
 	out     string
+	killStep int    // c07: the batch (step index) during which the process is killed; -1 = none
+	killAt   int    // >0: at the k-th failable storage operation; -1: after the write callback, before commit; -2: right after commit
+	keepDir  string // directory for the database file (kept after the kill)
+	recover  string // database file left by a killed child: observe it instead of running the batch
 }
 
 // shardChildMain is called from main() when os.Args[1] == "shardrun".
@@ -43,6 +47,10 @@ func shardChildMain(args []string) {
 	fs.IntVar(&a.cfg, "cfg", 0, "")
 	fs.IntVar(&a.steps, "steps", 0, "")
 	fs.StringVar(&a.out, "out", "", "")
+	fs.IntVar(&a.killStep, "killstep", -1, "")
+	fs.IntVar(&a.killAt, "killat", 0, "")
+	fs.StringVar(&a.keepDir, "keepdir", "", "")
+	fs.StringVar(&a.recover, "recover", "", "")
 	fs.Parse(args)
 	if err := runShardChild(a); err != nil {
 		fmt.Fprintln(os.Stderr, "shardrun error:", err)
@@ -60,9 +68,17 @@ type shardEnv struct {
 }
 
 func openEnv(cfg int, schema schemaSpec, maxSize int) (*shardEnv, error) {
-	dir, err := os.MkdirTemp("", "verif-shard-")
-	if err != nil {
-		return nil, err
+	return openEnvIn("", cfg, schema, maxSize)
+}
+
+func openEnvIn(keep string, cfg int, schema schemaSpec, maxSize int) (*shardEnv, error) {
+	dir := keep
+	var err error
+	if dir == "" {
+		dir, err = os.MkdirTemp("", "verif-shard-")
+		if err != nil {
+			return nil, err
+		}
 	}
 	e := &shardEnv{dir: dir}
 	e.col = models.Collection{UserId: "u", Id: "c", IndexSchema: schema.model(), UserPlan: models.UserPlan{Name: "p", MaxCollections: 10, MaxCollectionPointCount: 1 << 40, MaxPointSize: maxSize}}
@@ -193,7 +209,7 @@ func runShardChild(a childArgs) error {
 		w.WriteByte('\n')
 		w.Flush()
 	}
-	env, err := openEnv(a.cfg, g.schema, g.maxSize)
+	env, err := openEnvIn(a.keepDir, a.cfg, g.schema, g.maxSize)
 	if err != nil {
 		return err
 	}
@@ -203,8 +219,63 @@ func runShardChild(a childArgs) error {
 	if nsteps == 0 {
 		nsteps = 6 + g.r.IntN(8)
 	}
+	var fs *faultStore
+	if a.profile == "c07" {
+		fs = &faultStore{inner: env.sh.VerifDB()}
+		env.sh.VerifSwapDB(fs)
+		if nsteps > 6 {
+			nsteps = 6
+		}
+	}
 	for step := 0; step < nsteps; step++ {
 		b := g.genBatch(step)
+		if a.killStep == step {
+			if a.recover != "" {
+				// observe the database file a killed process left behind (fresh instance, cold cache)
+				sh2, err := shard.NewShard(a.recover, env.col, cache.NewManager(-1))
+				if err != nil {
+					return fmt.Errorf("reopen after kill: %w", err)
+				}
+				code := 78 // must be unchanged
+				if a.killAt == -2 {
+					code = 79 // killed right after commit: old or new state
+				}
+				emit("B\t" + b.coq() + "\t" + fmt.Sprintf("killed@%d:%s", a.killAt, describeBatch(b)))
+				obs, err := g.observe(env, sh2, step)
+				sh2.Close()
+				if err != nil {
+					return err
+				}
+				emit(fmt.Sprintf("R\t(OErr %d)\t%s", code, obs))
+				emit("E")
+				return nil
+			}
+			if a.killAt == -2 && b.kind != 0 {
+				os.Exit(5) // "right after commit" is only judged for insert batches (their reported output is known)
+			}
+			plan := &faultPlan{kill: true}
+			switch {
+			case a.killAt > 0:
+				plan.failAt = int64(a.killAt)
+			case a.killAt == -1:
+				plan.killBeforeCommit = true
+			default:
+				plan.killAfterCommit = true
+			}
+			fs.plan = plan
+			execBatch(env.sh, b) // the process exits inside (exit status 3) unless the batch has fewer operations
+			fs.plan = nil
+			emit("K\tnot-killed")
+			os.Exit(5)
+		}
+		if fs != nil && a.cfg != 4 && a.killStep < 0 {
+			// fail the k-th failable storage operation of this batch, for every k until the batch runs through
+			if err := g.faultSweep(a, env, fs, b, step, emit); err == errSweepApplied {
+				continue
+			} else if err != nil {
+				return err
+			}
+		}
 		emit("B\t" + b.coq() + "\t" + describeBatch(b))
 		out, okIds, ok, err := execBatch(env.sh, b)
 		if err != nil {
@@ -273,18 +344,54 @@ type histResult struct {
 	crashed bool
 	hung    bool
 	errText string
+	skipped int      // fault observations identical to a recorded one (counted, not repeated)
 	kinds   []string // per step: batch kind + outcome
 	sig     string   // canonical text for distinctness
 }
 
 // runHistory launches the child for (profile, seed, idx, cfg) and assembles the hist term.
 func runHistory(profile string, seed uint64, idx, cfg, steps int, scratch string, timeout time.Duration) histResult {
+	return runHistoryArgs(profile, seed, idx, cfg, steps, scratch, timeout, nil)
+}
+
+// runKillHistory: a child runs the history and is killed inside batch killStep (at operation killAt, before
+// commit (-1) or right after commit (-2)); a second child reopens the file it left and observes it.
+func runKillHistory(profile string, seed uint64, idx, cfg, killStep, killAt int, scratch string, timeout time.Duration) (histResult, bool) {
+	dir, err := os.MkdirTemp(scratch, "kill-")
+	if err != nil {
+		return histResult{idx: idx, cfg: cfg, errText: err.Error()}, false
+	}
+	defer os.RemoveAll(dir)
+	self, _ := os.Executable()
+	ctx, cancel := context.WithTimeout(context.Background(), timeout)
+	defer cancel()
+	cmd := exec.CommandContext(ctx, self, "shardrun", "-profile", profile, "-seed", fmt.Sprint(seed), "-idx", fmt.Sprint(idx), "-cfg", fmt.Sprint(cfg),
+		"-out", filepath.Join(dir, "killed.txt"), "-killstep", fmt.Sprint(killStep), "-killat", fmt.Sprint(killAt), "-keepdir", dir)
+	err = cmd.Run()
+	code := -1
+	if ee, ok := err.(*exec.ExitError); ok {
+		code = ee.ExitCode()
+	}
+	if code != 3 {
+		// the batch had fewer operations than killAt (exit 5), or the history is shorter: no case
+		return histResult{idx: idx, cfg: cfg}, false
+	}
+	hr := runHistoryArgs(profile, seed, idx, cfg, 0, scratch, timeout,
+		[]string{"-killstep", fmt.Sprint(killStep), "-killat", fmt.Sprint(killAt), "-recover", filepath.Join(dir, "sharddb.bbolt")})
+	return hr, true
+}
+
+func runHistoryArgs(profile string, seed uint64, idx, cfg, steps int, scratch string, timeout time.Duration, extra []string) histResult {
 	hr := histResult{idx: idx, cfg: cfg}
-	out := filepath.Join(scratch, fmt.Sprintf("h_%s_%d_%d.txt", profile, idx, cfg))
+	out := filepath.Join(scratch, fmt.Sprintf("h_%s_%d_%d_%d.txt", profile, idx, cfg, len(extra)))
+	if len(extra) > 0 {
+		out = filepath.Join(scratch, fmt.Sprintf("h_%s_%d_%d_%s.txt", profile, idx, cfg, strings.Join(extra[:4], "")))
+	}
 	ctx, cancel := context.WithTimeout(context.Background(), timeout)
 	defer cancel()
 	self, _ := os.Executable()
-	cmd := exec.CommandContext(ctx, self, "shardrun", "-profile", profile, "-seed", fmt.Sprint(seed), "-idx", fmt.Sprint(idx), "-cfg", fmt.Sprint(cfg), "-steps", fmt.Sprint(steps), "-out", out)
+	args := append([]string{"shardrun", "-profile", profile, "-seed", fmt.Sprint(seed), "-idx", fmt.Sprint(idx), "-cfg", fmt.Sprint(cfg), "-steps", fmt.Sprint(steps), "-out", out}, extra...)
+	cmd := exec.CommandContext(ctx, self, args...)
 	var stderr strings.Builder
 	cmd.Stderr = &stderr
 	err := cmd.Run()
@@ -317,6 +424,13 @@ func runHistory(profile string, seed uint64, idx, cfg, steps int, scratch string
 				hr.kinds[len(hr.kinds)-1] += ":" + outcomeOf(p[1])
 			}
 			pending = ""
+		case strings.HasPrefix(ln, "S\t"):
+			// observation identical to an already recorded one of the same batch: counted only
+			if pending != "" && len(hr.kinds) > 0 {
+				hr.kinds = hr.kinds[:len(hr.kinds)-1]
+				pending = ""
+			}
+			hr.skipped++
 		case ln == "E":
 			complete = true
 		}
@@ -367,8 +481,17 @@ func outcomeOf(out string) string {
 }
 
 func tail(s string, n int) string {
-	if len(s) > n {
-		return s[len(s)-n:]
+	// keep the head of a Go panic (the reason) and the tail
+	var kept []string
+	for _, ln := range strings.Split(s, "\n") {
+		if strings.HasPrefix(ln, "{\"level\"") {
+			continue
+		}
+		kept = append(kept, ln)
+	}
+	s = strings.Join(kept, "\n")
+	if len(s) > 2*n {
+		return s[:n] + "\n...\n" + s[len(s)-n:]
 	}
 	return s
 }
@@ -385,17 +508,29 @@ func runHistoriesX(rc *runCtx, profile string, n int, cfgs []int, cross bool, nf
 		return err
 	}
 	defer os.RemoveAll(scratch)
-	type job struct{ idx, cfg int }
+	type job struct{ idx, cfg, killStep, killAt int }
 	jobs := make(chan job)
 	results := make([]histResult, 0, n)
 	var mu sync.Mutex
 	var wg sync.WaitGroup
+	notKilled := 0
 	workers := 14
 	for wk := 0; wk < workers; wk++ {
 		wg.Add(1)
 		go func() {
 			defer wg.Done()
 			for j := range jobs {
+				if j.killStep >= 0 {
+					hr, ok := runKillHistory(profile, rc.seed, j.idx, j.cfg, j.killStep, j.killAt, scratch, 120*time.Second)
+					mu.Lock()
+					if ok {
+						results = append(results, hr)
+					} else {
+						notKilled++
+					}
+					mu.Unlock()
+					continue
+				}
 				hr := runHistory(profile, rc.seed, j.idx, j.cfg, 0, scratch, 120*time.Second)
 				mu.Lock()
 				results = append(results, hr)
@@ -406,11 +541,14 @@ func runHistoriesX(rc *runCtx, profile string, n int, cfgs []int, cross bool, nf
 	for i := 0; i < n; i++ {
 		if cross {
 			for _, c := range cfgs {
-				jobs <- job{i, c}
+				jobs <- job{i, c, -1, 0}
 			}
 		} else {
-			jobs <- job{i, cfgs[i%len(cfgs)]}
+			jobs <- job{i, cfgs[i%len(cfgs)], -1, 0}
 		}
+	}
+	for _, kj := range killJobs {
+		jobs <- job{kj[0], kj[1], kj[2], kj[3]}
 	}
 	close(jobs)
 	wg.Wait()
@@ -430,7 +568,7 @@ func runHistoriesX(rc *runCtx, profile string, n int, cfgs []int, cross bool, nf
 	}
 	hist := map[string]int{}
 	distinct := map[string]struct{}{}
-	crashed, hung, toolErr := 0, 0, 0
+	crashed, hung, toolErr, skipped := 0, 0, 0, 0
 	var crashTexts []string
 	index := []map[string]any{}
 	for i, hr := range results {
@@ -447,6 +585,7 @@ func runHistoriesX(rc *runCtx, profile string, n int, cfgs []int, cross bool, nf
 		for _, kd := range hr.kinds {
 			hist[kd]++
 		}
+		skipped += hr.skipped
 		hist[fmt.Sprintf("cfg%d", hr.cfg)]++
 		distinct[hr.sig+fmt.Sprint(hr.idx, hr.cfg)] = struct{}{}
 		if hr.crashed {
@@ -473,6 +612,8 @@ func runHistoriesX(rc *runCtx, profile string, n int, cfgs []int, cross bool, nf
 	rc.stats["crashed_histories"] = crashed
 	rc.stats["hung_histories"] = hung
 	rc.stats["tool_errors"] = toolErr
+	rc.stats["kill_points_beyond_batch"] = notKilled
+	rc.stats["identical_observations_not_repeated"] = skipped
 	rc.stats["crash_texts"] = crashTexts
 	rc.stats["case_index"] = index
 	rc.stats["seed"] = rc.seed
@@ -480,4 +621,147 @@ func runHistoriesX(rc *runCtx, profile string, n int, cfgs []int, cross bool, nf
 		return fmt.Errorf("%d histories could not be executed (harness failure): %v", toolErr, crashTexts)
 	}
 	return nil
+}
+
+// observe prints count, live documents, query answers and side tables of a shard as the tail of an R line.
+func (g *genState) observe(env *shardEnv, sh *shard.Shard, step int) (string, error) {
+	info, err := sh.Info()
+	if err != nil {
+		return "", err
+	}
+	extras := []string{}
+	live, docs, err := readAll(sh, g.pool)
+	if err != nil {
+		live = "[]"
+		extras = append(extras, "(XNote 901)")
+	}
+	saved, _ := g.pcg.MarshalBinary() // the requests of a fault observation must not advance the history's random stream
+	reqs := g.genRequests(step, docs)
+	g.pcg.UnmarshalBinary(saved)
+	qitems := make([]string, 0, len(reqs))
+	for _, rq := range reqs {
+		res, err := sh.SearchPoints(rq.model())
+		var o string
+		if err != nil {
+			o = "(QError 1)"
+		} else {
+			o, err = pRows(res, len(rq.sel) > 0)
+			if err != nil {
+				return "", err
+			}
+		}
+		qitems = append(qitems, "("+rq.coq()+", "+o+")")
+	}
+	lower := g.lowerTable(docs, reqs)
+	e2 := *env
+	e2.sh = sh
+	extras = append(extras, g.extraObs(&e2, docs, reqs)...)
+	return fmt.Sprintf("%d\t%s\t%s\t%s\t%s", info.PointCount, live, pList(qitems), lower, pList(extras)), nil
+}
+
+// faultSweep: for k = 1, 2, ... run the batch with the k-th failable storage operation failing. While the
+// fault fires the batch must fail and change nothing: observed warm (live instance) and cold (a copy of the
+// file opened by a fresh instance). Stops at the first k at which the fault no longer fires (the batch would
+// run through; it is then rolled back? no: it is applied -- so the sweep ends BEFORE such a k by probing the
+// operation count on a copy).
+func (g *genState) faultSweep(a childArgs, env *shardEnv, fs *faultStore, b batchSpec, step int, emit func(string)) error {
+	// number of failable operations of this batch, counted on a scratch copy of the file
+	nops, err := g.countOps(env, b)
+	if err != nil {
+		return err
+	}
+	ks := []int64{}
+	for k := int64(1); k <= nops; k++ {
+		if k <= 24 || k%4 == 0 || k == nops || a.steps < 0 {
+			ks = append(ks, k)
+		}
+	}
+	for _, k := range ks {
+		plan := &faultPlan{failAt: k}
+		fs.plan = plan
+		emit("B\t" + b.coq() + "\t" + fmt.Sprintf("fault@%d/%d:%s", k, nops, describeBatch(b)))
+		out, _, ok, err := execBatch(env.sh, b)
+		fs.plan = nil
+		if err != nil {
+			return err
+		}
+		if !plan.fired.Load() {
+			// fewer operations on the warm instance than on the cold copy: the batch ran through and is applied
+			obs, err := g.observe(env, env.sh, step)
+			if err != nil {
+				return err
+			}
+			emit("R\t" + out + "\t" + obs)
+			if ok {
+				g.noteApplied(b, nil)
+			}
+			return errSweepApplied
+		}
+		if !ok {
+			out = "(OErr 77)"
+		}
+		obs, err := g.observe(env, env.sh, step)
+		if err != nil {
+			return err
+		}
+		// An observation that is textually identical to one already recorded for this batch gets the same
+		// verdict: it is counted, not repeated (the first one of every batch is always recorded and judged).
+		if prev, seen := sweepSeen[out+obs]; seen && prev == step {
+			emit(fmt.Sprintf("S\tfault@%d/%d", k, nops))
+			continue
+		}
+		sweepSeen[out+obs] = step
+		emit("R\t" + out + "\t" + obs)
+		// cold view: a copy of the file opened by a fresh instance with its own cache manager
+		if k%3 == 1 {
+			cp := filepath.Join(env.dir, "cold.bbolt")
+			os.Remove(cp)
+			if err := env.sh.VerifDB().BackupToFile(cp); err != nil {
+				return err
+			}
+			sh2, err := shard.NewShard(cp, env.col, cache.NewManager(-1))
+			if err != nil {
+				return err
+			}
+			obs2, err := g.observe(env, sh2, step)
+			sh2.Close()
+			if err != nil {
+				return err
+			}
+			if prev, seen := sweepSeen["cold"+obs2]; seen && prev == step {
+				emit(fmt.Sprintf("S\tcold@%d/%d", k, nops))
+			} else {
+				sweepSeen["cold"+obs2] = step
+				emit("B\t(BDelete [])\tcold-after-fault")
+				emit("R\t(OOk [])\t" + obs2)
+			}
+		}
+	}
+	return nil
+}
+
+var errSweepApplied = fmt.Errorf("sweep applied the batch")
+
+// killJobs: (idx, cfg, killStep, killAt) cases to run in addition to the plain histories (set by the c07 sub-command)
+var killJobs [][4]int
+var sweepSeen = map[string]int{}
+
+// countOps runs the batch on a scratch copy of the database and returns the number of failable operations.
+func (g *genState) countOps(env *shardEnv, b batchSpec) (int64, error) {
+	cp := filepath.Join(env.dir, "count.bbolt")
+	os.Remove(cp)
+	if err := env.sh.VerifDB().BackupToFile(cp); err != nil {
+		return 0, err
+	}
+	sh2, err := shard.NewShard(cp, env.col, cache.NewManager(-1))
+	if err != nil {
+		return 0, err
+	}
+	defer sh2.Close()
+	plan := &faultPlan{}
+	sh2.VerifSwapDB(&faultStore{inner: sh2.VerifDB(), plan: plan})
+	if _, _, _, err := execBatch(sh2, b); err != nil {
+		return 0, err
+	}
+	return plan.count.Load(), nil
 }
